@@ -127,6 +127,23 @@ Proof.
       replace (b - length pre - length w') with 0 by lia. reflexivity.
 Qed.
 
+(* common/event: the String() of an event that carries an error is a fixed text followed by the scrubbed error
+   text, so every delimited address of the error text is replaced there too *)
+Lemma event_string_covered : forall ty pre w post,
+  matches addr_spec w -> left_ok pre -> right_ok post -> ~ dotted_run pre w ->
+  exists a b sp1 sp2 rest,
+    replaced_spans (pre ++ w ++ post) = sp1 ++ (a, b) :: sp2 /\ a <= length pre /\
+    event_string full_patterns ty (pre ++ w ++ post) =
+      event_prefix ty ++ render (firstn a pre) 0 sp1 ++ scrubbed ++ render rest b sp2 /\
+    ((length pre + length w <= b /\ rest = skipn (b - (length pre + length w)) post) \/
+     (b + 1 = length pre + length w /\ rest = 58%N :: post /\ colon_ws w post)).
+Proof.
+  intros ty pre w post Hw Hl Hr Hnd.
+  destruct (address_absent pre w post Hw Hl Hr Hnd) as (a & b & sp1 & sp2 & rest & Esp & Ha & Eout & Hrest).
+  exists a, b, sp1, sp2, rest. repeat split; auto.
+  unfold event_string. rewrite Eout. reflexivity.
+Qed.
+
 (* writer and scrubber together, with coverage *)
 Lemma end_to_end_covered : forall ws outs pend,
   run_writes (write (scrub full_patterns)) [] ws = (outs, pend) ->
